@@ -59,6 +59,20 @@ CHECKS = {
           "enumeration on arange tensors, so loss, duplication or permutation of a single element is visible.",
           "dims > B (block arithmetic is periodic in the block size); maximal merging is not demanded (the property only states the "
           "size limit).", "DESIGN.md §4 C06"),
+  "C07": ("abstract explicit-state exploration: pytree signatures as states, jax.eval_shape(update) on a concrete init as the "
+          "transition (an inductive fixed-point check), over deviation-bounded configurations of distributed_shampoo / sm3 / tearfree "
+          "x parameter trees x transports, bound to the code by concrete 3-update runs",
+          "Every configuration within 1 deviation (quick; 2 thorough) of the defaults over the full option tables (35 "
+          "distributed_shampoo options, 6 sm3, 25 tearfree) x 5 parameter trees (scalars, unit dims, lone (1,), blocked, rank 4) x "
+          "{plain, batch axis, sharded}, all 2-deviation configurations on one tree, and the full cross product of the 11-option layout "
+          "cluster (compression x frequent directions x reuse x average_grad x reset x quantization x metrics x skip x block x type, "
+          "3072 configurations): construction/init/update succeed or raise an explicit rejection (a raise statement of the package, an "
+          "assertion with a message, LOBPCG's input validation) - any other exception is a violation; the update tree equals the "
+          "parameters in structure/shape/dtype; sig(update(S0)) == S0 (PyTreeDef ==, shapes, dtypes), which is inductive because "
+          "traced control flow cannot depend on values; sharded: init state, declared shapes/dtypes and partition specs describe one "
+          "tree. Every <=1-deviation configuration is also run concretely for 3 updates and must reproduce the abstract signature.",
+          "Value-dependent failures belong to C03; combinations of 3+ simultaneous deviations outside the cluster are not covered; "
+          "vmap(axis_name) stands in for pmap in the abstract runs (pmap is used in the concrete ones).", "DESIGN.md §4 C07"),
   "C10": ("explicit-state enumeration (depth 1) of all admissible (d, r), paddings, gapped spectra and gradient shapes through the "
           "real pack/unpack, _low_rank_root and compressed preconditioned_grad against dense float64 reconstructions",
           "All (d, r) with |r|+2 < d <= 8 (10 thorough), both signs, paddings {0,3}: pack/unpack round trips on distinguishable values "
